@@ -16,7 +16,12 @@ EXPLANATION = (
     "enum arms build variant k from variant k; a field of array / tuple type that is converted element by element instead of by one whole-field call is "
     "reported as undetermined (element placement is index arithmetic inside generated closures). R2 (storage selection): the family contains type-equality obligations "
     "`<S as Component>::Storage == requested` for no attribute (DenseVecStorage<S>), a bare storage name, an explicit <Self> argument, a storage with "
-    "two type arguments, and a generic component; they are checked by rustc while compiling the family."
+    "two type arguments, and a generic component; they are checked by rustc while compiling the family. R3 (wire form of the generated data type): in the "
+    "serde-derived Serialize::serialize of every `<Name>SaveloadData` of the family (its MIR is part of the family's facts) each enum variant k is written by "
+    "exactly one serialize_{unit,newtype,tuple,struct}_variant call with the constant index k and of the kind its field list calls for, structs by "
+    "serialize_struct / serialize_tuple_struct / serialize_newtype_struct, and the number of serialize_field calls equals the number of fields "
+    "(shapes that forward serde(skip..) themselves are exempt from the count) - an attribute the macro puts on the data type (untagged, flatten, skip) "
+    "that makes same-shaped variants indistinguishable on load or drops a field shows here."
 )
 NOT_DECIDED = ("all programs of the grammar (only the enumerated family); round-trip VALUE equality; what forwarded serde attributes do at run time")
 TRUSTED = ["rustc nightly macro expansion, type checking and MIR", "serde_derive", "sa/ analyses"]
@@ -31,6 +36,7 @@ def last(ty):
 def run(ctx):
     ctx.rule("C18-R1", "generated conversions are field-wise: output field i <- conversion of input field i with field i's own type")
     ctx.rule("C18-R2", "derive(Component) selects the requested storage (type-equality obligations inside the family)")
+    ctx.rule("C18-R3", "the generated data type's wire form names the variant and carries every field")
     d, man = extract.shapes_facts("quick" if ctx.tier == "quick" else "thorough")
     ctx.bodies_analysed["shapes-" + ctx.tier] = 0 if d is None else len(d["bodies"])
     if d is None:
@@ -114,6 +120,72 @@ def run(ctx):
                             problems.append("unit variant %s is produced for another input variant" % v["name"])
             ctx.ob("C18-R1", key, False if problems else ("undetermined" if undet else True), b.loc(), "; ".join((problems or undet)[:4]), config="shapes")
     ctx.floor("C18-R1", "generated conversion bodies checked", n, 60, config="shapes")
+    r3(ctx, facts, man)
+
+
+VARIANT_CALLS = {"serialize_unit_variant": "unit", "serialize_newtype_variant": "newtype", "serialize_tuple_variant": "tuple", "serialize_struct_variant": "struct"}
+
+
+def r3(ctx, facts, man):
+    """The round trip of a derived type goes through the wire form of its generated `<Name>SaveloadData`.  Field-wise means the
+    data type says which variant it holds and writes each field: in the serde-derived Serialize::serialize of the data type (its MIR
+    is part of the family's facts) every variant k of an enum shape is written by exactly one serialize_*_variant call carrying the
+    constant index k and of the kind its field list calls for, and the number of serialize_field calls is the number of fields of the
+    multi-field variants; a struct shape is written by serialize_struct / serialize_tuple_struct / serialize_newtype_struct with one
+    serialize_field per field.  (An attribute such as serde(untagged), flatten or skip on the generated type makes two variants with
+    the same payload shape indistinguishable on load, or drops a field.)  Shapes that forward serde(skip..) themselves are exempt
+    from the field count."""
+    import re
+    n = 0
+    for sh in man["shapes"]:
+        pre = "Serialize for %sSaveloadData<" % sh["name"]
+        bs = [b for b in facts.bodies if pre in b.path and b.path.endswith("::serialize")]
+        key = "%sSaveloadData wire form" % sh["name"]
+        if len(bs) != 1:
+            ctx.ob("C18-R3", key, False, "", "%d Serialize impls found for the generated data type" % len(bs), config="shapes")
+            continue
+        b = bs[0]
+        n += 1
+        calls = [(bb, t) for bb, t in b.calls() if isinstance(t["callee"], dict)]
+        names = [t["callee"].get("name") for bb, t in calls]
+        nfield = sum(1 for x in names if x == "serialize_field")
+        forwards = bool(sh.get("forwards_serde_skip"))
+        problems = []
+        if sh["kind"] == "enum":
+            seen = {}
+            for bb, t in calls:
+                k = VARIANT_CALLS.get(t["callee"].get("name"))
+                if k and len(t["args"]) >= 3:
+                    m = re.match(r"^(\d+)_u32$", str(t["args"][2].get("const", "")) if isinstance(t["args"][2], dict) else "")
+                    if m:
+                        seen.setdefault(int(m.group(1)), []).append(k)
+            want_fields = 0
+            for k, v in enumerate(sh["variants"]):
+                nf = len(v["fields"])
+                named = bool(v["fields"]) and not v["fields"][0]["name"].isdigit()
+                kind = "unit" if nf == 0 else ("struct" if named else ("newtype" if nf == 1 else "tuple"))
+                if kind in ("struct", "tuple"):
+                    want_fields += nf
+                got = seen.get(k, [])
+                if forwards and kind in ("struct", "tuple", "newtype"):
+                    if len(got) != 1:
+                        problems.append("variant %s (index %d) is written by %d variant-naming calls" % (v["name"], k, len(got)))
+                elif got != [kind]:
+                    problems.append("variant %s (index %d, %s) is written by %s instead of one serialize_%s_variant call: on load it is not told apart "
+                                    "by name from a variant with the same payload shape" % (v["name"], k, kind, got or "no variant-naming call", kind))
+            if not forwards and nfield != want_fields:
+                problems.append("%d fields are written, the variants have %d" % (nfield, want_fields))
+        else:
+            nf = len(sh["fields"])
+            want = "serialize_struct" if sh["kind"] == "named" else ("serialize_newtype_struct" if nf == 1 else "serialize_tuple_struct")
+            if forwards:
+                want = None
+            if want and names.count(want) != 1:
+                problems.append("the data struct is not written by one %s call" % want)
+            if want and want != "serialize_newtype_struct" and nfield != nf:
+                problems.append("%d fields are written, the struct has %d" % (nfield, nf))
+        ctx.ob("C18-R3", key, not problems, b.loc(), "; ".join(problems[:3]), config="shapes")
+    ctx.floor("C18-R3", "generated data types whose Serialize impl was read", n, 30, config="shapes")
 
 
 def generic_suffix(sh):
